@@ -380,6 +380,29 @@ namespace
         // every n is visited many times per run; each n is used directly (with reset()) and through the cast
         unsigned block = (unsigned)rng.ui(41);
         for (unsigned n = block * 25; n < block * 25 + 25 && n <= 1000; ++n) caseIterationN(sink, rng, n);
+        // the largest representable limits ("no limit" in practice): the first evaluations must all be false
+        static const unsigned HUGE_N[] = {UINT_MAX, UINT_MAX - 1u, 0x80000000u, 0x7fffffffu, 0x80000001u, UINT_MAX - 1000u};
+        for (unsigned n : HUGE_N)
+        {
+            ob::IterationTerminationCondition itc(n);
+            PTC cast = itc;
+            PTC viaOr = ob::plannerOrTerminationCondition(cast, ob::plannerNonTerminatingCondition());
+            int evals = rng.range(1, 40);
+            unsigned direct = 0;  // the cast works on a copy of the object: only direct evaluations count in itc itself
+            for (int i = 1; i <= evals; ++i)
+            {
+                int via = (int)rng.ui(3);
+                bool got = via == 0 ? itc.eval() : via == 1 ? evalForm(cast, (int)rng.ui(3)) : viaOr();
+                if (via == 0) ++direct;
+                sink.count("c18_iter_huge_n_evals");
+                if (got || itc.getTimesCalled() != direct)
+                {
+                    sink.viol("C18:iteration-count:IterationTerminationCondition",
+                              J().i("n", (long long)n).i("evaluation", i).b("got", got).i("timesCalled", itc.getTimesCalled()).i("direct", direct).i("via", via));
+                    break;
+                }
+            }
+        }
         sink.noteCase(hmix(0x17e7, block), true);
         sink.sample(J().str("kind", "iteration").i("n_from", block * 25).i("n_to", std::min(1000u, block * 25 + 24)));
     }
@@ -652,8 +675,14 @@ namespace
                 break;
             }
             if (i == ops) break;
+            // one to three operations between two evaluations (a clear followed by additions changes the kind of the
+            // solutions held without the condition ever seeing the empty set)
+            int burst = rng.coin(0.6) ? 1 : rng.range(2, 3);
+            for (int b = 0; b < burst; ++b)
+            {
             double u = rng.u01();
             int op = u < 0.45 ? 0 : u < 0.85 ? 1 : 2;
+            if (b > 0 && rng.coin(0.5)) op = (b == 1) ? 2 : (int)rng.ui(2);  // clear, then add
             h = hmix(h, op);
             if (op == 0)
             {
@@ -679,6 +708,7 @@ namespace
                 pdef->clearSolutionPaths();
                 exact = approx = 0;
                 sink.count("c18_exact_clears");
+            }
             }
         }
         sink.noteCase(h, ops >= 3);
